@@ -87,6 +87,11 @@ CLAIMS["C16"] = _claim("All 16 set/unset combinations of the four lifecycle comm
                        "commands are served by the controller and recorded with host, batch, environment, rows on disk and live "
                        "job processes; traces validated by TLC against the hook clauses of JadeMonitor.", "5-C16")
 
+CLAIMS["C15"] = _claim("Traces of real `jade pipeline submit` runs (1-4 stages, local and HPC, nested submit-next-stage commands as "
+                       "virtual processes, per-stage recovery) are validated by TLC against PipelineMonitor.tla: stage k+1 is "
+                       "created / active only after stage k's complete status, each stage created once and in order, "
+                       "pipeline.json's stage number and return codes match what happened, pipeline complete last.", "5-C15")
+
 NOT_YET = "check not built yet in this round (the specification and harness are being extended property by property)"
 
 
